@@ -348,6 +348,29 @@ theorem normalized_setter_idem_monoclinic (c n s s' : M6 K) (hn : normalizedAs "
     simp [ctor_C11_C12_C13_C15_C22_C23_C25_C33_C35_C44_C46_C55_C66, h0]
   rw [hmap _ _ _ _ _ _ _ _ _ _ _ _ _ _ (zc_zero _), norm_fix_monoclinic]
 
+/-- a tensor that `normalized_as(sys)` returns unchanged passes `is_normal(sys)` at any non-negative tolerances
+    (the comparison is entry by entry with itself) — through the `Cij` setter, zeroing included. -/
+theorem is_normal_of_fixed (rt at' : K) (h1 : 0 ≤ rt) (h2 : 0 ≤ at') (sys : String) (n s : M6 K)
+    (hfix : normalizedAs sys n s = .ok n) : isNormal rt at' sys n s = .ok true := by
+  simp only [isNormal, hfix]
+  congr 1
+  rw [List.all_eq_true]
+  intro p _
+  exact isclose_self _ _ _ h1 h2
+
+/-- `ec.normalized_as(sys).is_normal(sys)` for the five targets whose normalisation is idempotent through the setter. -/
+theorem is_normal_of_normalized_setter (rt at' : K) (h1 : 0 ≤ rt) (h2 : 0 ≤ at') (c n s s' : M6 K) :
+    (normalizedAs "cubic" c s = .ok n → isNormal rt at' "cubic" n s' = .ok true) ∧
+    (normalizedAs "tetragonal" c s = .ok n → isNormal rt at' "tetragonal" n s' = .ok true) ∧
+    (normalizedAs "orthorhombic" c s = .ok n → isNormal rt at' "orthorhombic" n s' = .ok true) ∧
+    (normalizedAs "monoclinic" c s = .ok n → isNormal rt at' "monoclinic" n s' = .ok true) ∧
+    (Symm6 c → normalizedAs "triclinic" c s = .ok n → isNormal rt at' "triclinic" n s' = .ok true) :=
+  ⟨fun h => is_normal_of_fixed rt at' h1 h2 _ n s' (normalized_setter_idem_cubic c n s s' h),
+   fun h => is_normal_of_fixed rt at' h1 h2 _ n s' (normalized_setter_idem_tetragonal c n s s' h),
+   fun h => is_normal_of_fixed rt at' h1 h2 _ n s' (normalized_setter_idem_orthorhombic c n s s' h),
+   fun h => is_normal_of_fixed rt at' h1 h2 _ n s' (normalized_setter_idem_monoclinic c n s s' h),
+   fun hc h => is_normal_of_fixed rt at' h1 h2 _ n s' (normalized_setter_idem_triclinic c n s s' hc h)⟩
+
 /-- non-vacuity of the hypothesis `normalizedAs … = .ok n`: a cubic tensor is accepted. -/
 example : ∃ n, normalizedAs "cubic" (m6 (ctor_C11_C12_C44 (3 : ℚ) 1 2)) (fun _ _ => 0) = .ok n := by
   rw [normalizedAs_cubic, norm_fix_cubic]
